@@ -275,7 +275,7 @@ Ev(e, row, data) ==
                 src   == Source(e.q.from, outer)
             IN  IF ~IsArr(src) THEN Err
                 ELSE IF \E i \in DOMAIN src.e : ~IsObj(src.e[i]) THEN Err
-                ELSE LET ext == [i \in 1..Len(src.e) |-> Merge(src.e[i], outer)]
+                ELSE LET ext == [i \in 1..Len(src.e) |-> Merge(outer, src.e[i])]   \* the element's own columns hide the outer row's
                          rs  == Pipeline(e.q, outer, ext)
                      IN  IF IsErr(rs) THEN Err ELSE BoolV(Len(rs.e) > 0)
       [] OTHER -> Err
